@@ -52,6 +52,24 @@ func parseFrameReply(s string) (msgs []refMsg, stop string, ok bool) {
 func chunkEncode(r *Rand, body []byte, weird int) []byte {
 	var out []byte
 	rest := body
+	if weird == 18 || weird == 19 {
+		// a size line whose value does not fit a machine word (or just does): 16 and 17 hex digits around 2^63 and 2^64.
+		// 18: right after a chunk whose DATA ends in CRLF (a wrapped-around size of -2 would find its "CRLF" there)
+		if weird == 18 {
+			n := 0
+			if len(rest) > 0 {
+				n = 1 + r.Intn(len(rest))
+			}
+			out = append(out, strconv.FormatInt(int64(n+2), 16)...)
+			out = append(out, "\r\n"...)
+			out = append(out, rest[:n]...)
+			out = append(out, "\r\n\r\n"...)
+			rest = rest[n:]
+		}
+		out = append(out, r.Pick([]string{"FFFFFFFFFFFFFFFE", "fffffffffffffffe", "FFFFFFFFFFFFFFFF", "8000000000000000", "8000000000000002",
+			"7FFFFFFFFFFFFFFF", "10000000000000000", "FFFFFFFFFFFFFFFE0", "0FFFFFFFFFFFFFFFE"})...)
+		out = append(out, "\r\n"...)
+	}
 	for len(rest) > 0 {
 		n := 1 + r.Intn(len(rest))
 		sz := strconv.FormatInt(int64(n), 16)
